@@ -1004,6 +1004,48 @@ Proof.
   cbn. f_equal. apply IH. intros l' Hl'. apply H. now right.
 Qed.
 
+(* ---- worst channel / bookkeeping corollaries ---- *)
+Lemma met_le_eq_r : forall a b c, met_le a b -> met_eq b c -> met_le a c.
+Proof. intros a b c H1 H2. eapply met_le_trans; [exact H1 | apply met_eq_le; exact H2]. Qed.
+Lemma met_eq_sym : forall a b, met_eq a b -> met_eq b a.
+Proof. intros [|x] [|y]; cbn; try tauto. intros E; symmetry; exact E. Qed.
+
+(* the metric clears a threshold iff every channel does (after rounding): "the worst channel clears the threshold" *)
+Lemma metric_clears_iff : forall T f m thr, metric T f = Ok m ->
+  exists l, chan_mets T (f_g01 f) (f_cd f) (f_pmd f) (f_pdl f) = Ok l /\ l <> [] /\
+    (met_le (MFin thr) m <-> forall y, In y l -> met_le (MFin thr) (met_round2 y)).
+Proof.
+  intros T f m thr H. destruct (metric_spec _ _ _ H) as [l [E [Hne [L [y0 [Hy0 A]]]]]].
+  exists l. split; [exact E|]. split; [exact Hne|]. split.
+  - intros Hm y Hy. eapply met_le_trans; [exact Hm | apply L; exact Hy].
+  - intros Hall. eapply met_le_eq_r; [apply Hall; exact Hy0 | apply met_eq_sym; exact A].
+Qed.
+
+(* bookkeeping of the automatic mode: the request is feasible iff a mode was selected and (bidir) the reverse direction
+   clears that mode's threshold; otherwise the reason is the loop's own, or MODE_NOT_FEASIBLE for the reverse direction *)
+Lemma decide_auto_spec : forall margin o rev,
+  (decide_auto margin o rev = None <->
+     exists it m, o = Selected it m /\ forall r, rev = Some r -> met_le (MFin (m_osnr m + margin)) r) /\
+  (forall it m, o = NoFeasibleMode it m -> decide_auto margin o rev = Some "NO_FEASIBLE_MODE"%string) /\
+  (o = NoBaudrate -> decide_auto margin o rev = Some "NO_FEASIBLE_BAUDRATE_WITH_SPACING"%string) /\
+  (forall it m r, o = Selected it m -> rev = Some r -> ~ met_le (MFin (m_osnr m + margin)) r ->
+     decide_auto margin o rev = Some MODE_NOT_FEASIBLE).
+Proof.
+  intros margin o rev. split; [|split; [|split]].
+  - unfold decide_auto. destruct o as [it m|it m| | |e]; cbn; try (split; [discriminate | intros [? [? [? _]]]; discriminate]).
+    destruct rev as [r|].
+    + unfold blocked_fixed. destruct (met_lt r (MFin (m_osnr m + margin))) eqn:E.
+      * apply met_lt_true_iff in E. split; [discriminate|]. intros [it' [m' [Eq Hr]]]. inversion Eq; subst.
+        exfalso. apply E. now apply Hr.
+      * apply met_lt_false_iff in E. split; [|reflexivity]. intros _. exists it, m. split; [reflexivity|].
+        intros r' [= <-]. exact E.
+    + split; [|reflexivity]. intros _. exists it, m. split; [reflexivity | discriminate].
+  - intros it m ->. reflexivity.
+  - intros ->. reflexivity.
+  - intros it m r -> -> H. unfold decide_auto. cbn. unfold blocked_fixed.
+    apply met_lt_true_iff in H. now rewrite H.
+Qed.
+
 (* ---- witnesses (the statements they refute are in Props/C13.v) ---- *)
 (* a two-amplifier line: trx, add ROADM (-20 dBm = 1/100 mW per channel), booster (gain 100, 10 mW cap), fibre (1/100),
    preamp (gain 100, 10 mW cap), drop ROADM, trx;  4 channels of 1 mW at the transmitter *)
